@@ -172,6 +172,7 @@ pub struct FrameRec {
     pub frame: Vec<u8>,
     pub raw: bool,
     pub verdict: Verdict,
+    pub ctx: Ctx,
 }
 
 pub struct Rig {
@@ -322,7 +323,7 @@ impl Rig {
                     verdict.findings.iter().map(|x| format!("\n        !! {} :: {}", x.sig(), x.detail)).collect::<String>()
                 ));
             }
-            self.log.push(FrameRec { t_us: self.now_us, frame: f, raw, verdict });
+            self.log.push(FrameRec { t_us: self.now_us, frame: f, raw, verdict, ctx });
         }
         if let Err(e) = r {
             let msg = panic_msg(e);
